@@ -632,18 +632,18 @@ macro_rules! c18h {
 c18h!(c18_truncate_full_unify_opt_grow80_m12, 24, true, Optimistic, true, 0, Some(80), m 12);
 // @h props=C18 tier=thorough timeout=1800 mem=28 bounds=CAP=64,unify,history=a(24)b(8)c(rest)-drop(a),n=80(grow),m=17(one-byte-too-many)
 c18h!(c18_truncate_full_unify_opt_grow80_m17, 24, true, Optimistic, true, 0, Some(80), m 17);
-// @h props=C18 tier=quick timeout=1800 mem=16 bounds=CAP=64,plain,history=a(24)b(8)c(rest)-drop(a),n=10(floored-at-allocated)
+// @h props=C18 tier=quick timeout=1800 mem=28 bounds=CAP=64,plain,history=a(24)b(8)c(rest)-drop(a),n=10(floored-at-allocated)
 c18h!(c18_truncate_full_plain_pess_floor, 24, true, Pessimistic, false, 0, Some(10));
-// @h props=C18 tier=quick timeout=1800 mem=16 bounds=CAP=64,unify,history=a(20)b(8)-drop(a),n=48(shrink)
+// @h props=C18 tier=quick timeout=1800 mem=28 bounds=CAP=64,unify,history=a(20)b(8)-drop(a),n=48(shrink)
 c18h!(c18_truncate_part_unify_opt_shrink48, 20, false, Optimistic, true, 0, Some(48));
 // thorough: the new size symbolic as well (a symbolic-sized backing allocation: 13 min / 20 GB class queries)
 // @h props=C18,C08 tier=thorough timeout=2400 mem=28 bounds=CAP=64,plain,history=a(24)b(8)c(rest)-drop(a),n<=96:symbolic
 c18h!(c18_truncate_full_plain_pess, 24, true, Pessimistic, false, 96, None);
 // @h props=C18,C08 tier=thorough timeout=2400 mem=28 bounds=CAP=64,unify,history=a(24)b(8)c(rest)-drop(a),n<=96:symbolic
 c18h!(c18_truncate_full_unify_opt, 24, true, Optimistic, true, 96, None);
-// @h props=C18 tier=thorough timeout=1800 mem=16 bounds=CAP=64,unify,history=a(9)b(8)-drop(a):too-small,n=70 optcover=served_by_list_after_truncate
+// @h props=C18 tier=thorough timeout=1800 mem=28 bounds=CAP=64,unify,history=a(9)b(8)-drop(a):too-small,n=70 optcover=served_by_list_after_truncate
 c18h!(c18_truncate_part_unify_small, 9, false, Optimistic, true, 0, Some(70));
-// @h props=C18 tier=thorough timeout=1800 mem=16 bounds=CAP=64,unify,list=None,n=70 optcover=served_by_list_after_truncate
+// @h props=C18 tier=thorough timeout=1800 mem=28 bounds=CAP=64,unify,list=None,n=70 optcover=served_by_list_after_truncate
 c18h!(c18_truncate_part_unify_none, 20, false, None, true, 0, Some(70));
 
 // =============================================================================================
